@@ -12,6 +12,7 @@
 A free-running stress mode (no scheduler, random delays at the yield points) is judged the same way.
 Model drift (label reached != label predicted) is evidence, never a violation."""
 import concurrent.futures as cf
+import itertools
 import json
 import math
 import os
@@ -54,12 +55,11 @@ PAR = 6
 # ------------------------------------------------------------------------------------------------
 # TLC helpers (own metadirs so that they can run concurrently)
 
-_ctr = [0]
+_ctr = itertools.count(1)
 
 
 def _meta(ctx, tag):
-    _ctr[0] += 1
-    return ctx.path("tlc_%s_%d" % (tag, _ctr[0]))
+    return ctx.path("tlc_%s_%d" % (tag, next(_ctr)))
 
 
 def mc(ctx, shape):
@@ -141,8 +141,13 @@ def judge(ctx, path):
         return res
     # diagnosis pass on the rejected segments only: the first event that no explanation reaches
     bad = []
-    for start, _ in rej[:60]:
-        bad += rows[start - 1:end_of[start - 1]]
+    per_cfg, chosen = {}, []
+    for n, (start, _) in enumerate(rej):
+        tag = rows[start - 1].get("cfg")
+        if per_cfg.get(tag, 0) < 12:                    # diagnose up to 12 rejected segments per configuration
+            per_cfg[tag] = per_cfg.get(tag, 0) + 1
+            chosen.append(n)
+            bad += rows[start - 1:end_of[start - 1]]
     dp = path + ".rejected"
     C.write_ndjson(dp, bad)
     drej, _, _ = judge_file(ctx, dp, diag=True)
@@ -150,7 +155,7 @@ def judge(ctx, path):
     dend = {a: b for a, b in dsegs}
     far_of = {}
     for start, far in drej:
-        far_of[[a for a, _ in dsegs].index(start - 1)] = (start - 1, far)
+        far_of[chosen[[a for a, _ in dsegs].index(start - 1)]] = (start - 1, far)
     if len(drej) != len(dsegs):
         raise C.ToolError("judge diagnosis pass disagrees with the first pass on %s" % path)
     for n, (start, _) in enumerate(rej):
